@@ -1,6 +1,6 @@
 # C16 - publisher: subscribers see a gap-free, ordered, duplicate-free stream
 import re
-from ..core import norm, relloc, live, calls, evs, Broken, value_origin, Tracer, fmt_trace, rooted, has_back_edge, cond_event, efield
+from ..core import norm, relloc, live, calls, evs, Broken, value_origin, Tracer, fmt_trace, rooted, has_back_edge, cond_event, efield, pos
 from .. import locks
 from ..rules import *
 from .tables import GUARDED
@@ -48,6 +48,8 @@ def advance_before_read(ctx, db):
                 if not ret:
                     continue
                 rv = ret[-1].get('const')
+                if rv is None and ret_bool(tr) is not None:
+                    rv = int(ret_bool(tr))      # return flag;  with the flag branched on earlier on this path
                 wrote = [i for i, it in enumerate(tr) if it.k == 'write' and field_of(it) == REGPOS]
                 kicked = any(it.k == 'branch' and re.search(r'\._kicked\b', it.path or '') and it.val for it in tr)
                 park = [i for i, it in enumerate(tr) if it.k == 'write' and (it.get('path') or '').endswith('._awt') and it.get('rhs') not in ('nullptr',)]
@@ -184,6 +186,8 @@ def slot_reinit(ctx, db):
             continue
         nre += 1
         written = {m.group(1) for it in tr if it.k == 'write' for m in [re.search(r'\.(\w+)$', it.get('path') or '')] if m and norm(it.get('field') or it.get('lfield') or '').startswith('cocls::publisher::queue::subreg_t') or (it.k == 'write' and m and re.match(r'local:\w+\.', it.get('path') or ''))}
+        if any(it.k == 'call' and norm(it.get('callee') or '') == 'cocls::publisher::queue::subreg_t::operator=' and not re.search(r'\[\]$|^\*|^local:\w+$', (it.get('args') or [{}])[0].get('path') or 'x') for it in tr):
+            written = set(fields)      # the whole record is assigned from a freshly built one (l = subreg_t{...})
         missing = fields - written
         if missing:
             bad = bad or ('the recycled slot keeps its old %s' % ', '.join(sorted(missing)), tr)
@@ -317,8 +321,10 @@ def close_wakes_all(ctx, db):
             ctx.ob(rid, f, f['key'], n == 1, 'publish overload goes through push_lk', desc='a publish overload bypasses push_lk')
     for name in ('cocls::publisher::~publisher', 'cocls::publisher::close'):
         for f in db.need(name)[:1]:
-            n = sum(1 for e in f.events() if e.k == 'call' and norm(e.get('callee')) == 'cocls::publisher::queue::close')
-            ctx.ob(rid, f, f['key'], n == 1, '%s closes the queue' % name.split('::')[-1], desc='%s does not close the queue' % name)
+            # directly or through a helper of the class (~publisher may call publisher::close): exactly once on every path
+            trs_ = [t for t in htracer(db).traces(f) if live(t)]
+            ok = bool(trs_) and all(sum(1 for c in calls(t) if norm(c.get('callee')) == 'cocls::publisher::queue::close') == 1 for t in trs_)
+            ctx.ob(rid, f, f['key'], ok, '%s closes the queue' % name.split('::')[-1], desc='%s does not close the queue' % name)
 
 
 def subscriber_protocol(ctx, db):
@@ -418,29 +424,31 @@ def delivered_matches_position(ctx, db):
     so on every path that returns _q[i]:  i == _pos - reg._pos - 1 for the value reg._pos has when the function returns.  A read that clamps the
     index or takes the newest element must move reg._pos with it, otherwise the next advance steps onto the very element just delivered"""
     rid = ctx.rule('C16.delivered-matches-position', 'LINEAR (symbolic evaluation per path)', 'get_value_lk: on every path that returns an element _q[i], i equals _pos - reg._pos - 1 with reg._pos as that '
-                   'path leaves it (assignments to locals and to reg._pos are evaluated symbolically over _pos, reg._pos, _q.size()): the subscriber continues from the value it was given', floor=3)
+                   'path leaves it (assignments to locals and to reg._pos are evaluated symbolically over _pos, reg._pos, _q.size()): the subscriber continues from the value it was given', floor=1)
     for f, trs in traces_of(db, 'cocls::publisher::queue::get_value_lk', per_instance=False):
         trs = [t for t in trs if live(t)]
         ctx.paths(rid, len(trs))
         sites = {}
         for tr in trs:
             env = {}; reg = {'REG': 1}
-            for it in tr:
+            for n_, it in enumerate(tr):
+                def L(e_):
+                    return _lin(inline_returns(tr, n_, e_), dict(env, REG=reg))
                 if it.k == 'decl' and it.get('init') is not None and re.fullmatch(r'local:\w+(#\d+)?', it.get('var') or ''):
-                    env[it['var']] = _lin(it['init'], dict(env, REG=reg))
+                    env[it['var']] = L(it['init'])
                 elif it.k == 'write' and re.fullmatch(r'local:\w+(#\d+)?', it.get('path') or ''):
-                    env[it['path']] = _lin(it.get('rhs'), dict(env, REG=reg)) if (it.get('op') or '=') == '=' else None
+                    env[it['path']] = L(it.get('rhs')) if (it.get('op') or '=') == '=' else None
                 elif it.k == 'write' and _pcanon(it.get('path') or '') == 'REG':
                     op_ = it.get('op') or '='
                     if op_ == '=':
-                        reg = _lin(it.get('rhs'), dict(env, REG=reg))
+                        reg = L(it.get('rhs'))
                     elif op_ in ('++', '--') and reg is not None:
                         reg = dict(reg); reg[''] = reg.get('', 0) + (1 if op_ == '++' else -1)
                     else:
                         reg = None
                 elif it.k == 'call' and norm(it.get('callee') or '') in ('std::deque::operator[]', 'std::deque::at') and norm(it.get('field') or '') == PQ + '::_q':
                     a = (it.get('args') or [{}])[0]
-                    idx = {'': a['const']} if a.get('const') is not None else _lin(a.get('path'), dict(env, REG=reg))
+                    idx = {'': a['const']} if a.get('const') is not None else L(a.get('path'))
                     idx = {k: v for k, v in (idx or {}).items() if v} if idx is not None else None
                     exp = _lsub({'POS': 1, 'REG': -1, '': -1}, {'REG': reg}) if reg is not None else None
                     sites.setdefault(it.get('loc'), []).append((idx, exp, tr))
@@ -469,7 +477,8 @@ def copy_continues(ctx, db):
         for tr in trs:
             st = [i for i, it in enumerate(tr) if it.k == 'write' and (it.get('path') or '').endswith('_awt')]
             if st:
-                inc = [it for it in tr[:st[0]] if it.k == 'write' and _pcanon(it.get('path') or '') == 'REG' and it.get('op') in ('++', '+=')]
+                inc = [it for it in tr[:st[0]] if it.k == 'write' and _pcanon(it.get('path') or '') == 'REG' and (it.get('op') in ('++', '+=') or
+                                                                                                                 ((it.get('op') or '=') == '=' and (_lin(it.get('rhs'), {}) or {}).get('REG') == 1 and (_lin(it.get('rhs'), {}) or {}).get('', 0) >= 1))]
                 parked_ahead = bool(inc) if parked_ahead is None else (parked_ahead and bool(inc))
     if parked_ahead is None:
         raise Broken('advance_suspend_lk no longer stores the awaiter: anchor changed')
@@ -491,11 +500,14 @@ def copy_continues(ctx, db):
         for c in calls(tr):
             if norm(c.get('callee') or '') == 'cocls::publisher::queue::subscribe_lk' and len(c.get('args') or []) == 2:
                 n += 1
-                p = _resolve_select(c['args'][1].get('path') or '', tr[:tr.index(c)])
+                p = _resolve_select(c['args'][1].get('path') or '', tr[:pos(tr, c)])
                 env = {}
-                for it in tr[:tr.index(c)]:
+                for it in tr[:pos(tr, c)]:
                     if it.k == 'decl' and it.get('init') is not None and re.fullmatch(r'local:\w+', it.get('var') or '') and not it.get('ref'):
-                        env[it['var']] = _lin(_resolve_select(it['init'], tr[:tr.index(it)]), env)
+                        env[it['var']] = _lin(_resolve_select(it['init'], tr[:pos(tr, it)]), env)
+                    elif it.k == 'write' and re.fullmatch(r'local:\w+', it.get('path') or ''):
+                        # std::size_t start; if (parked) start = ...; else start = ...;
+                        env[it['path']] = _lin(_resolve_select(it.get('rhs') or '', tr[:pos(tr, it)]), env) if (it.get('op') or '=') == '=' else None
                 lin = _lin(p, env)
                 if not parked_ahead or parked is False:
                     want = {'REG': 1}
@@ -525,7 +537,11 @@ def failed_publish_consistent(ctx, db):
                    'leaves; single-element insertions have the strong guarantee', floor=1)
     Q = PQ + '::_q'
     n = 0; seen = set()
-    for f in db.fns('cocls::publisher::queue::push'):
+    bodies = []
+    for f0 in db.fns('cocls::publisher::queue::push'):
+        # the insertion may sit in a helper of the class (push_single, insert_range_lk): the try block is judged where the insertion is
+        bodies += [f0] + [g for g in helper_bodies(db, f0) if g['nname'] != 'cocls::publisher::queue::push_lk']
+    for f in bodies:
         if f['key'] in seen:
             continue
         seen.add(f['key'])
